@@ -260,7 +260,7 @@ func EncodeWithColor(data []byte, minECCPercent int, userSpecifiedLayers int, co
 		drawBullsEye(code, matrixSize/2, 5)
 	} else {
 		drawBullsEye(code, matrixSize/2, 7)
-		for i, j := 0, 0; i < baseMatrixSize/2-1; i, j = i+15, j+16 {
+		for i, j := 0, 0; i <= baseMatrixSize/2-1; i, j = i+15, j+16 {
 			for k := (matrixSize / 2) & 1; k < matrixSize; k += 2 {
 				code.set(matrixSize/2-j, k)
 				code.set(matrixSize/2+j, k)
